@@ -95,11 +95,18 @@ func (f *c21Field) value() reflect.Value {
 
 func genC21Fields(rng *Rng, allInt bool) []c21Field {
 	n := 1 + rng.Intn(6)
+	wide := rng.P(1, 6)
+	if wide {
+		n = 13 + rng.Intn(12) // more fields than an insertion sort's threshold: stability is not free
+	}
 	used := map[string]bool{}
 	idents := map[string]bool{}
 	var out []c21Field
 	for len(out) < n {
 		name := c21Names[rng.Intn(len(c21Names))]
+		if wide {
+			name = fmt.Sprintf("%c%c%d", 'A'+byte(len(out)%26), 'a'+byte((len(out)*7)%26), len(out))
+		}
 		if used[name] {
 			continue
 		}
